@@ -535,6 +535,7 @@ ldb_lru_lookup(ldb_lru_t *lru, const ldb_slice_t *key) {
 void
 ldb_lru_release(ldb_lru_t *lru, lru_handle_t *handle) {
   lru_shard_t *shard = &lru->shard[ldb_lru_shard(handle->hash)];
+  LCDB_ACC("lrurel", handle, 0);
   lru_shard_release(shard, handle);
 }
 
